@@ -23,6 +23,9 @@ func ActionRequest(r R) *sl.Req {
 	if Chance(r, 0.5) {
 		req.Headers = append(req.Headers, sl.KV{K: "X-A", V: Pick(r, actValues)})
 	}
+	for i := r.IntN(3); i > 0; i-- {
+		req.Get = append(req.Get, sl.KV{K: "qty", V: Pick(r, []string{"7", "010", "08", "0100", "019", "-3", "-010", "12", "0", "00"})})
+	}
 	return req
 }
 
@@ -157,6 +160,20 @@ func ActionProgram(r R) *sl.Program {
 			}
 			p.Items = append(p.Items, sl.Item{Rule: th})
 		}
+	}
+	if Chance(r, 0.4) {
+		// quantities taken from the request: the operand of the arithmetic is request data (digit strings with
+		// leading zeros, negative numbers), the sum is compared with a threshold
+		ph := 1 + r.IntN(2)
+		q := &sl.Rule{ID: 700, Phase: ph, Severity: -1, Targets: []sl.Sel{{Var: "ARGS_GET", Kind: 1, Key: "qty"}}, Op: &sl.Op{Name: "rx", Arg: "^-?[0-9]+$"},
+			Setvars: []sl.Setvar{{Key: "total", Kind: Pick(r, []string{"+", "+", "-"}), Val: "%{MATCHED_VAR}"}}}
+		if Chance(r, 0.5) {
+			q.Setvars = append(q.Setvars, sl.Setvar{Key: "copy", Kind: "=", Val: "%{MATCHED_VAR}"}, sl.Setvar{Key: "copy", Kind: "+", Val: "1"})
+		}
+		p.Items = append(p.Items, sl.Item{Rule: q})
+		th := &sl.Rule{ID: 701, Phase: ph, Severity: -1, Targets: []sl.Sel{{Var: "TX", Kind: 1, Key: "total"}}, Op: &sl.Op{Name: Pick(r, []string{"ge", "gt", "lt"}), Arg: Pick(r, []string{"10", "18", "100", "-1"})},
+			Setvars: []sl.Setvar{{Key: "over", Kind: "+", Val: "1"}}}
+		p.Items = append(p.Items, sl.Item{Rule: th})
 	}
 	return p
 }
